@@ -1,5 +1,6 @@
 import AFProofs.Lemmas.ParEval
 import AFProofs.Lemmas.ParEvalLive
+import AFProofs.Lemmas.ParEvalFair
 
 /-!
 # C14 — parallel evaluation equals serial evaluation
@@ -171,6 +172,98 @@ theorem legacy_map_misordered :
       serial [Res.ok 0, Res.ok 1] = ⟨[0, 1], none⟩ :=
   ⟨[0, 0, 2, 2, 0, 0, 1, 1, 0], by decide⟩
 
+/-! ## Termination of `SneakyPool.map` under every fair schedule
+
+`fairRounds P evs` counts the complete *fair rounds* of the schedule `evs`: stretches in which each of the `P + 1`
+actors (caller, workers) gets at least one turn, in any order and multiplicity.  That is the only hypothesis on
+the scheduler.  Which steps need it: a worker that holds work must get turns (otherwise its job is never
+performed: `map_starved_worker_never_finishes`), and the caller must get turns to submit and to poll; the caller's
+polling of *empty* result queues is the only unproductive step, and at most `P - 1` of them happen in a row
+before the cursor stands at a non-empty queue (`MapSt.dist`). -/
+
+/-- **Variant.** `phi = P * (queue interactions still to happen) + (empty result queues the polling cursor has
+to pass)`.  No step of any actor increases it — after any schedule prefix, for any continuation. -/
+theorem map_variant_never_increases (ws : List (Worker α)) (js : List (Res α)) (evs evs2 : List Nat)
+    (hq : Quiescent ws) (hp : ws ≠ []) :
+    ((initMap ws js).run (evs ++ evs2)).phi ≤ ((initMap ws js).run evs).phi := by
+  have hi := mapInv_init ws js hq hp
+  have hc : (initMap ws js).cursor < (initMap ws js).ws.length := hi.pos
+  rw [MapSt.run_append]
+  exact phi_run_le evs2 _ (mapInv_run hi evs) (cursor_lt_run hi.pos hc evs)
+
+/-- **Every fair round makes progress.** After any schedule prefix, while the caller has not collected its
+batch, any stretch of schedule in which every actor gets a turn strictly decreases the variant. -/
+theorem map_fair_round_decreases_variant (ws : List (Worker α)) (js : List (Res α)) (evs r : List Nat)
+    (hq : Quiescent ws) (hp : ws ≠ []) (hf : ((initMap ws js).run evs).finished = false)
+    (hr : ∀ a ∈ List.range (ws.length + 1), a ∈ r) :
+    ((initMap ws js).run (evs ++ r)).phi < ((initMap ws js).run evs).phi := by
+  have hi := mapInv_init ws js hq hp
+  have hc : (initMap ws js).cursor < (initMap ws js).ws.length := hi.pos
+  rw [MapSt.run_append]
+  refine fair_round_decreases (mapInv_run hi evs) (cursor_lt_run hi.pos hc evs) hf r ?_
+  rw [MapSt.run_length]
+  simpa [initMap] using hr
+
+/-- **Termination with a computed bound.** Every schedule that contains `4·n·P + 1` fair rounds (`n` inputs,
+`P` workers) — whatever else it contains, in whatever order — makes `map` collect its whole batch; what it then
+returns is the serial result and nothing is left in any queue. -/
+theorem map_terminates_under_every_fair_schedule (ws : List (Worker α)) (js : List (Res α)) (evs : List Nat)
+    (hq : Quiescent ws) (hp : ws ≠ []) (hfair : mapRoundBound ws.length js.length ≤ fairRounds ws.length evs) :
+    ((initMap ws js).run evs).finished = true ∧ ((initMap ws js).run evs).output = serial js ∧
+      leftover ((initMap ws js).run evs).ws = 0 := by
+  have hi := mapInv_init ws js hq hp
+  have hc : (initMap ws js).cursor < (initMap ws js).ws.length := hi.pos
+  have hl : (initMap ws js).ws.length = ws.length := by simp [initMap]
+  have hfin : ((initMap ws js).run evs).finished = true := by
+    rcases fair_rounds_finish ws.length _ (initMap ws js) evs hi hc hl hfair with h | h
+    · exact h
+    · rw [phi_init ws js hq] at h
+      unfold mapRoundBound at h
+      omega
+  exact ⟨hfin, map_equals_serial ws js evs hq hp hfin, (map_no_leftover ws js evs hq hp hfin).2.1⟩
+
+/-- once `map` has collected its batch nothing any actor does changes that (so "within the bound" is "at the
+bound and ever after") -/
+theorem map_finished_is_stable (ws : List (Worker α)) (js : List (Res α)) (evs evs2 : List Nat)
+    (hf : ((initMap ws js).run evs).finished = true) : ((initMap ws js).run (evs ++ evs2)).finished = true := by
+  rw [MapSt.run_append]
+  exact finished_run hf evs2
+
+/-- the function the driver executes for the fairness clause (`mapExact`: the schedule and nothing after it) -/
+theorem mapExact_fair_spec (ws : List (Worker α)) (js : List (Res α)) (sched : List Nat)
+    (hq : Quiescent ws) (hp : ws ≠ []) (hfair : mapRoundBound ws.length js.length ≤ fairRounds ws.length sched) :
+    (mapExact ws js sched).finished = true ∧ (mapExact ws js sched).output = serial js :=
+  ⟨(map_terminates_under_every_fair_schedule ws js sched hq hp hfair).1,
+   (map_terminates_under_every_fair_schedule ws js sched hq hp hfair).2.1⟩
+
+/-- **Fairness is needed** (towards workers): two workers, two inputs; a schedule that never serves the second
+worker never lets `map` return, however long it is. -/
+theorem map_starved_worker_never_finishes (evs : List Nat) (h : 2 ∉ evs) :
+    ((initMap (newPool 2) [Res.ok (0 : Nat), Res.ok 1]).run evs).finished = false := by
+  cases hf : ((initMap (newPool 2) [Res.ok (0 : Nat), Res.ok 1]).run evs).finished with
+  | false => rfl
+  | true =>
+    exfalso
+    have hq : Quiescent (newPool 2 : List (Worker Nat)) := by
+      intro w hw
+      simp only [newPool, List.mem_replicate] at hw
+      rw [hw.2]
+      exact ⟨rfl, rfl, rfl⟩
+    have hp : (newPool 2 : List (Worker Nat)) ≠ [] := by decide
+    have hlen := MapSt.run_length (initMap (newPool 2) [Res.ok (0 : Nat), Res.ok 1]) evs
+    have hl : 1 < ((initMap (newPool 2) [Res.ok (0 : Nat), Res.ok 1]).run evs).ws.length := by
+      rw [hlen]; decide
+    have hk := List.getElem?_eq_getElem hl
+    have hlog := map_worker_log (newPool 2) [Res.ok (0 : Nat), Res.ok 1] evs hq hp hf 1 _ hk
+    have hun := performed_unchanged (initMap (newPool 2) [Res.ok (0 : Nat), Res.ok 1]) 1 evs h
+    rw [hk] at hun
+    have h0 : (initMap (newPool 2) [Res.ok (0 : Nat), Res.ok 1]).ws[1]?.map Worker.performed = some [] := by decide
+    rw [h0] at hun
+    simp only [Option.map_some, Option.some.injEq] at hun
+    rw [hun] at hlog
+    revert hlog
+    decide
+
 /-! ## `Process.run_jobs` -/
 
 /-- **Results keyed by job.** With the exception counted once, whatever the schedule (stale `empty()`
@@ -292,5 +385,19 @@ example :
 example :
     let s := runJobs {} 2 [Res.ok 1, Res.err 2, Res.ok 3] [⟨2, false⟩, ⟨2, false⟩, ⟨0, false⟩, ⟨1, false⟩] 50
     s.done = true ∧ s.yielded.length = 3 ∧ s.raised = true ∧ s.performed = [0, 1, 2] := by decide
+
+/-- a schedule meeting the fairness hypothesis: 17 rounds in which the second worker comes first, the caller
+second; `map` over two inputs on two workers has finished at its end (and in fact much earlier) -/
+example :
+    mapRoundBound 2 2 ≤ fairRounds 2 (List.replicate 17 [2, 0, 1]).flatten ∧
+      (mapExact (newPool 2) [Res.ok 5, Res.err 6] (List.replicate 17 [2, 0, 1]).flatten).finished = true ∧
+      (mapExact (newPool 2) [Res.ok 5, Res.err 6] (List.replicate 4 [2, 0, 1]).flatten).output = ⟨[5], some 6⟩ := by
+  decide +kernel
+
+/-- an unfinished state and a fair round from it: the variant goes down (here from 10 to 7) -/
+example :
+    ((initMap (newPool 2) [Res.ok 0, Res.ok 1]).run [0, 0, 1]).finished = false ∧
+      ((initMap (newPool 2) [Res.ok 0, Res.ok 1]).run [0, 0, 1]).phi = 10 ∧
+      ((initMap (newPool 2) [Res.ok 0, Res.ok 1]).run ([0, 0, 1] ++ [2, 0, 1])).phi = 7 := by decide
 
 end AF.C14
